@@ -141,4 +141,35 @@ def statusAdvanced (k : Nat) : Bool := applied 3 k
 /-- the records of the next height survived -/
 def nextRecords (k : Nat) : Bool := applied 1 k && applied 2 k
 
+/-! ## Part 4: application height, WAL end-of-height marker and consensus status across a crash
+
+consensus/state.go finalizeCommit performs, in this order: the application commit (block store, state, confidential
+stores: Part 2), the fsynced `EndHeightMessage` of the consensus WAL, `ApplyBlock` (updateStatus + SaveStatus: Part 3).
+node/node.go NewNode rebuilds a status that is exactly one block behind the application by running ApplyBlock on the
+stored block. -/
+
+structure Heights where
+  app : Nat
+  walEnd : Nat
+  status : Nat
+deriving Repr, DecidableEq
+
+/-- finalizeCommit of the next block, cut by a crash after `k` of its three durable steps (k ≥ 3: not cut) -/
+def commitCut (s : Heights) (k : Nat) : Heights :=
+  { app := if 1 ≤ k then s.app + 1 else s.app,
+    walEnd := if 2 ≤ k then s.walEnd + 1 else s.walEnd,
+    status := if 3 ≤ k then s.status + 1 else s.status }
+
+/-- NewNode's reconciliation -/
+def restartNode (s : Heights) : Heights := if s.status + 1 = s.app then { s with status := s.app } else s
+
+inductive NodeOp where
+  | commit            -- a complete finalizeCommit
+  | crash (k : Nat)   -- a finalizeCommit cut after k steps, followed by the restart
+deriving Repr, DecidableEq
+
+def nodeStep (s : Heights) : NodeOp → Heights
+  | .commit => commitCut s 3
+  | .crash k => restartNode (commitCut s k)
+
 end Model.Stores
